@@ -2,6 +2,7 @@ import TucanProofs.Lemmas.RejectKind
 import TucanProofs.Lemmas.Sentence
 import TucanProofs.Lemmas.ParserDenotation
 import TucanProofs.Lemmas.AcceptIff
+import TucanProofs.Lemmas.MoreExamples
 /-!
 # C10 — the parser accepts exactly the grammar; every rejection is the parser's own exception
 
@@ -81,5 +82,8 @@ example :
     (parseTucan [.lit ['C'], .lit ['2'], .lit ['/'], .lit ['('], .lit ['1'], .lit ['-'], .lit ['2'], .lit [')']]).isSome = true ∧
     parseTucan [.lit ['C'], .lit ['/'], .lit ['('], .lit ['1'], .lit ['-'], .lit ['2']] = none := by
   refine ⟨?_, ?_, ?_⟩ <;> decide +kernel
+
+/-- non-vacuity of `C10_accepts_iff`: the tree of `CH2O/(1-3)(2-3)(3-4)/(3:mass=13,rad=2)` is valid -/
+example : MoreExamples.astA.Valid := MoreExamples.astA_valid
 
 end Tucan
